@@ -683,7 +683,7 @@ class Interp(object):
         it = self.ev(st.iter, s.env, ctx)
         fq = ctx.finfo.fq
         ctx.loop_depth += 1
-        tag = "%s@%s" % (norm_text(st.target), ctx.loop_depth)
+        tag = "L@%s" % ctx.loop_depth          # alpha-renamed loop variable: nesting depth, not the source name
         # bind loop target symbolically
         body_state = s.fork("for %s in %s" % (norm_text(st.target), norm_text(st.iter)))
         tv = self.loop_target_value(st.target, it, tag)
